@@ -72,8 +72,48 @@ def c_encode_cases(u, groups, rng, tier, op):
     return out
 
 
+def wide_cases(u, groups, rng, tier, op):
+    """flat values with one wide container (more elements than the depth budget has units):
+    width must not be mistaken for depth"""
+    out = []
+    names = groups.get('maps', []) + groups.get('maps1', []) + groups.get('lists', []) + groups.get('defaults', []) + groups.get('holder', [])
+    widths = [1100] if tier == 'quick' else [1021, 1022, 1100, 2600]
+    if tier == 'quick':
+        # one per shape of interest: string / struct / container keys and values, lists of structs
+        pick = ['M1StringXI64', 'M1I32XPLeaf', 'M1I64XLeaf', 'M1I8XMapI16String', 'M1PLeafXI16', 'M1I16XListI32', 'MpI32',
+                'LiPLeaf', 'LiSetString', 'LiMapStringPLeaf', 'M1I16XBinary', 'DefHolder', 'HoldNest']
+        names = [n for n in pick if n in u.by_name]
+    for i, name in enumerate(names):
+        for w in widths:
+            r = rng.fork('wide%s%d' % (name, w))
+            v = ValGen(u, r, max_depth=2, wide=w).val(st(name))
+            if op == 'rt':
+                out.append(('(rt %s ptr %s)' % (name, val_sx(v)), {'type': name, 'op': 'rt', 'mode': 'ptr', 'shape': 'wide'}))
+            else:
+                out.append(('(dec %s fresh %s)' % (name, hexs(put_py(denote_py(u, st(name), v)))), {'type': name, 'op': 'dec', 'shape': 'wide'}))
+    return out
+
+
+def hammer_cases(u, rng, tier):
+    """long size walks of by-value and pointer arguments of one type from many goroutines"""
+    out = []
+    if 'LiString' not in u.by_name:
+        return out
+    for mode in ('val', 'ptr'):
+        vals = []
+        for j in range(4):
+            head = [('b', bytes([97 + (i % 26)]) * (1 + i % 3)) for i in range(6000)]
+            tail = [('b', b'zz') for _ in range(37 * (j + 1))]
+            vals.append(val_sx(('t', b'', [('l', head), ('ln',), ('l', tail)])))
+        ms = 1200 if tier == 'quick' else 6000
+        if mode == 'ptr':
+            ms //= 3
+        out.append(('(hammer LiString %s %d %s)' % (mode, ms, ' '.join(vals)), {'type': 'LiString', 'op': 'hammer', 'mode': mode}))
+    return out
+
+
 def c04_cases(u, groups, rng, tier):
-    out = c_encode_cases(u, groups, rng, tier, 'enc')
+    out = c_encode_cases(u, groups, rng, tier, 'enc') + hammer_cases(u, rng.fork('hammer'), tier)
     # buffer lengths around the exact size; spare capacity beyond the buffer
     names = all_names(u)
     k = 150 if tier == 'quick' else 1500
@@ -108,7 +148,7 @@ def c03_cases_placeholder_check(): pass
 def c03_cases(u, groups, rng, tier):
     """well-formed messages from any writer: own encoding, foreign field order, evolved schemas, trailing bytes"""
     b = budget(tier)
-    out = leftover_cases(u, rng.fork('leftover'), per=1)
+    out = leftover_cases(u, rng.fork('leftover'), per=1) + wide_cases(u, groups, rng.fork('wide'), tier, 'dec')
     for name in all_names(u):
         r = rng.fork('c03' + name)
         for j in range(b['msgs_per_type'] + 1):
@@ -280,6 +320,33 @@ def c11_cases(u, groups, rng, tier):
             out.append(('(dec %s %s %s)' % (name, dst_choice(u, r, name), hexs(msg)), {'type': name, 'op': 'dec'}))
             out.append(('(hop %s %s)' % (name, hexs(msg)), {'type': name, 'op': 'hop'}))
             out.append(('(enc %s ptr %s)' % (name, val_sx(v)), {'type': name, 'op': 'enc'}))
+    # many unknown fields at one struct level (the recorder's index grows), then an ordinary message
+    # decoded with the same pooled recorder
+    known = set(f.fid for s_ in valid_structs(u) for f in s_.sorted_fields())
+    for name in (hold + groups.get('holder', []))[:6 if tier == 'quick' else 40]:
+        r = rng.fork('c11wide' + name)
+        for n in ([65, 130] if tier == 'quick' else [63, 64, 65, 66, 127, 128, 129, 257, 1000]):
+            v = ValGen(u, r, big=False, max_depth=2).val(st(name))
+            body = put_py(denote_py(u, st(name), v))[:-1]
+            unk = b''
+            fid = 50000
+            for i in range(n):
+                fid += 1 + r.below(3)
+                while fid in known:
+                    fid += 1
+                if i % 3 == 0:
+                    unk += b'\x08' + fid.to_bytes(2, 'big') + r.below(1 << 32).to_bytes(4, 'big')
+                elif i % 3 == 1:
+                    unk += b'\x0b' + fid.to_bytes(2, 'big') + b'\x00\x00\x00\x02' + bytes([97 + i % 26, 98])
+                else:
+                    unk += b'\x02' + fid.to_bytes(2, 'big') + b'\x01'
+            msg = body + unk + b'\x00'
+            out.append(('(dec %s fresh %s)' % (name, hexs(msg)), {'type': name, 'op': 'dec', 'shape': 'many-unknown'}))
+            v2 = ValGen(u, r, big=False, max_depth=2).val(st(name))
+            small = put_py(denote_py(u, st(name), v2))[:-1] + b'\x08\xc3\x50\x00\x00\x00\x07\x00'
+            out.append(('(dec %s fresh %s)' % (name, hexs(small)), {'type': name, 'op': 'dec', 'shape': 'after-many-unknown'}))
+            out.append(('(hop %s %s)' % (name, hexs(msg)), {'type': name, 'op': 'hop', 'shape': 'many-unknown'}))
+            out.append(('(hop %s %s)' % (name, hexs(small)), {'type': name, 'op': 'hop', 'shape': 'after-many-unknown'}))
     return out
 
 
@@ -320,6 +387,25 @@ def c15_cases(u, groups, rng, tier):
         r = rng.fork('mix%d' % j)
         hops = ''.join(r.pick('sslm') for _ in range(r.pick([300, 420, 480, 520, 700, 1100])))
         out.append(('(dec Rec fresh %s)' % hexs(mixed(hops)), {'type': 'Rec', 'op': 'dec', 'shape': 'mixed-random', 'depth': len(hops)}))
+    # by-value struct elements: RecV.F2 *RecV (p), F3 list<RecV> (v), F4 map<string,RecV> (m), F5 list<list<RecV>> (w)
+    # a pointer hops first, so that every residue of the budget is reached at the by-value struct
+    def mixedv(hops):
+        pre = {'p': b'\x0c\x00\x02', 'v': b'\x0f\x00\x03\x0c\x00\x00\x00\x01',
+               'm': b'\x0d\x00\x04\x0b\x0c\x00\x00\x00\x01\x00\x00\x00\x01k',
+               'w': b'\x0f\x00\x05\x0f\x00\x00\x00\x01\x0c\x00\x00\x00\x01'}
+        return b''.join(pre[h] for h in hops) + b'\x08\x00\x01\x00\x00\x00\x07' + b'\x00' * (len(hops) + 1)
+    if 'RecV' in u.by_name:
+        for a in range(0, 7):
+            for c in 'vmw':
+                for n in ((8, 3000) if tier == 'quick' else (1, 8, 250, 340, 341, 342, 3000, 20000)):
+                    hops = 'p' * a + c * n
+                    out.append(('(dec RecV fresh %s)' % hexs(mixedv(hops)), {'type': 'RecV', 'op': 'dec', 'shape': 'byvalue-' + c, 'depth': len(hops)}))
+        for j in range(10 if tier == 'quick' else 200):
+            r = rng.fork('mixv%d' % j)
+            hops = ''.join(r.pick('ppvmw') for _ in range(r.pick([200, 300, 420, 520, 1100, 4000])))
+            out.append(('(dec RecV fresh %s)' % hexs(mixedv(hops)), {'type': 'RecV', 'op': 'dec', 'shape': 'byvalue-random', 'depth': len(hops)}))
+    # wide is not deep
+    out += wide_cases(u, groups, rng.fork('wide'), tier, 'dec')
     # key-side nesting: RecKey.F1 map<RecKey, i32>
     for d in [1, 47, 48, 49, 340, 341, 342, 511, 512, 1024]:
         msg = (b'\x0d\x00\x01\x0c\x08\x00\x00\x00\x01' * d) + b'\x00' + (b'\x00\x00\x00\x05\x00' * d)
@@ -335,7 +421,7 @@ def c16_cases(u, groups, rng, tier):
 
 
 GENERATORS = {
-    'C01': lambda u, g, r, t: c_encode_cases(u, g, r, t, 'rt'),
+    'C01': lambda u, g, r, t: c_encode_cases(u, g, r, t, 'rt') + wide_cases(u, g, r.fork('wide'), t, 'rt'),
     'C02': lambda u, g, r, t: c_encode_cases(u, g, r, t, 'enc'),
     'C03': c03_cases,
     'C04': c04_cases,
@@ -603,6 +689,7 @@ def c08_sessions(u, groups, rng, tier):
         body = ' '.join(('(0 %d %d)' % (r.pick(keys), 1 + r.below(5))) if r.chance(1, 2) else ('(1 %d)' % r.pick(keys)) for _ in range(5 + r.below(40)))
         ops.append(('(descmap %s)' % body, {'op': 'descmap'}))
     sessions.append(ops)
+    sessions.append(hammer_cases(u, rng.fork('hammer'), tier))
     return {'sessions': sessions}
 
 
